@@ -405,8 +405,18 @@ func (c *Ctx) c06Concurrent(i int, hr *HistRun, o *HistOpts, alts map[int64][][]
 				nc++
 			}
 			if ev.Kind != "commit" {
-				// interleaving signature: which consensus phase the call landed in (mod block structure is unknown here; use phase delta)
-				c.SetAdd("concurrent-phase-overlaps", fmt.Sprintf("%s/spans%d", ev.Kind, ev.Phase1-ev.Phase0))
+				// interleaving signature: after which consensus call the client call was issued and how many consensus calls it overlapped
+				after := "start"
+				if k := ev.Phase0 - out.res.PhaseBase - 1; k >= 0 && int(k) < len(out.res.Phases) {
+					after = out.res.Phases[k]
+				}
+				span := ev.Phase1 - ev.Phase0
+				if span > 3 {
+					span = 3
+				}
+				sig := fmt.Sprintf("%s issued-after-%s overlapping-%d-consensus-calls", ev.Kind, after, span)
+				c.SetAdd("concurrent-interleavings", sig)
+				c.Distinct("concurrent/" + sig)
 			}
 		}
 		c.Count("concurrent.queries", nq)
